@@ -7,7 +7,8 @@ Ops of the header-format specification (`LhasaV.Spec.HeaderEnc`):
 * `hdrnorm <fields> <n>`       → the dump line `hdr` prints for `normalise` (with `rest=<n>`), or `fail`
 
 `<fields>`: `;`-separated items `L<level>` `M<method hex>` `c<clen>` `l<length>` `t<time>` `a<attr>` `r<crc>` `o<os>`
-`n<name hex>` `p<pad hex>` `A<area>` `X<ext>|<ext>|…`; hex `-` = empty.
+`n<name hex>` `p<pad hex>` `A<area>` `X<ext>|<ext>|…` `z<trail hex>` (levels 2/3: bytes after the chain terminator
+inside the header); hex `-` = empty.
 area: `u<tag>.<ts>.<mid hex>.<perms>.<uid>.<gid>` | `9<hex>` | `r<hex>`.
 ext: `C<extra hex>` `N<hex>` `P<hex>` `W<c>.<m>.<a>.<tail>` `U<perm>.<tail>` `I<gid>.<uid>.<tail>` `G<hex>` `S<hex>`
 `T<time>.<tail>` `9<hex>` `O<type>.<hex>`.
@@ -59,6 +60,7 @@ def parseFields (s : String) : Option Fields :=
     | 'n' => (hexB v).map (fun x => { f with name := x })
     | 'p' => (hexB v).map (fun x => { f with pad := x })
     | 'A' => (parseArea v).map (fun x => { f with area := x })
+    | 'z' => (hexB v).map (fun x => { f with trail := x })
     | 'X' => (if v == "" then some [] else (v.splitOn "|").mapM parseExt).map (fun x => { f with exts := x })
     | _ => none)
     { level := 0, method := [], clen := 0, length := 0, time := 0, crc := 0 }
